@@ -21,7 +21,20 @@ def short(name):
 
 
 def conds_before(path, i):
-    conds = [e.a for e in path.events[:i] if e.kind == "ASSUME"]
+    return resolve([e.a for e in path.events[:i] if e.kind == "ASSUME"])
+
+
+def same_observer_calls(t):
+    """const observers of a container (size, empty) called repeatedly with nothing in between yield one value: drop the call ids"""
+    if not isinstance(t, tuple):
+        return t
+    if t[:1] == ("ucall",) and len(t) >= 5 and short(t[2]) in ("size", "empty", "max_size", "capacity") and not t[3]:
+        return ("call", t[2], (), same_observer_calls(t[4]))
+    return tuple(same_observer_calls(x) for x in t)
+
+
+def resolve(conds):
+    conds = list(conds)
     # unit resolution: (A || B) together with !A gives B (e.g. a search loop left by `i == N || a[i] == key`, then `i != N` checked)
     from .engine import neg
     known = set(c for c in conds if isinstance(c, tuple))
@@ -42,7 +55,10 @@ def conds_before(path, i):
                         na = neg(a)
                     except Exception:
                         continue
-                    if na in known and b not in known:
+                    # an unsigned quantity (size(), strlen ...) that is `<= 0` is `== 0`
+                    unsigned_zero = isinstance(a, tuple) and a[:2] == ("cmp", "<=") and a[3] == ("c", 0) and isinstance(a[2], tuple) and a[2][:1] in (("call",), ("ucall",)) and \
+                        short(a[2][1] if a[2][0] == "call" else a[2][2]) in ("size", "length", "strlen", "max_size", "capacity") and ("cmp", "!=", a[2], ("c", 0)) in known
+                    if (na in known or unsigned_zero) and b not in known:
                         known.add(b)
                         conds.append(b)
                         changed = True
